@@ -1,8 +1,435 @@
+(* C20: proofs about the handle-database model (HdbModel.v).
+   Everything here is for ALL states satisfying the invariant / all operation lists. *)
 From Coq Require Import ZArith List Bool Lia.
 Require Import Verif.gen.Consts_hdb Verif.HdbModel.
 Import ListNotations.
 Local Open Scope Z_scope.
 
-Definition Inv (d : hdb) : Prop := True.
+(* ------------------------------------------------------------------ *)
+(* Side conditions on the constants regenerated from /repo.  If the enum in lib/hdb.c is
+   reordered so that memset(0) no longer means EMPTY, these fail and the check reports it. *)
+Lemma st_empty_zero : HDB_STATE_EMPTY = 0.            Proof. reflexivity. Qed.
+Lemma st_active_ne_empty : HDB_STATE_ACTIVE <> HDB_STATE_EMPTY.   Proof. discriminate. Qed.
+Lemma st_pending_ne_empty : HDB_STATE_PENDINGREMOVAL <> HDB_STATE_EMPTY. Proof. discriminate. Qed.
+Lemma st_pending_ne_active : HDB_STATE_PENDINGREMOVAL <> HDB_STATE_ACTIVE. Proof. discriminate. Qed.
+Lemma handle_is_64_bits : HDB_SIZEOF_HANDLE_T = 8 /\ HDB_SIZEOF_CHECK = 4 /\ HDB_SIZEOF_REF = 4.
+Proof. repeat split; reflexivity. Qed.
+Lemma ebadf_pos : 0 < HDB_EBADF. Proof. reflexivity. Qed.
+
+(* ------------------------------------------------------------------ *)
+(* list update *)
+Lemma upd_length {A} (l : list A) n x : length (upd l n x) = length l.
+Proof. revert n; induction l as [|a l IH]; intros [|n]; simpl; auto. Qed.
+
+Lemma nth_upd_same {A} (l : list A) n x : (n < length l)%nat -> nth_error (upd l n x) n = Some x.
+Proof. revert n; induction l as [|a l IH]; intros [|n] H; simpl in *; try lia; auto. apply IH; lia. Qed.
+
+Lemma nth_upd_other {A} (l : list A) n m x : n <> m -> nth_error (upd l n x) m = nth_error l m.
+Proof.
+  revert n m; induction l as [|a l IH]; intros [|n] [|m] H; simpl; auto; try congruence.
+Qed.
+
+Lemma nth_upd {A} (l : list A) n m x :
+  nth_error (upd l n x) m = if Nat.eqb n m then (if Nat.ltb n (length l) then Some x else None) else nth_error l m.
+Proof.
+  destruct (Nat.eqb_spec n m) as [->|Hne].
+  - destruct (Nat.ltb_spec m (length l)).
+    + apply nth_upd_same; auto.
+    + apply nth_error_None. rewrite upd_length. lia.
+  - apply nth_upd_other; auto.
+Qed.
+
+Lemma nth_app_new {A} (l : list A) x m :
+  nth_error (l ++ [x]) m = if Nat.eqb m (length l) then Some x else nth_error l m.
+Proof.
+  destruct (Nat.eqb_spec m (length l)) as [->|Hne].
+  - rewrite nth_error_app2 by lia. rewrite Nat.sub_diag. reflexivity.
+  - destruct (Nat.ltb_spec m (length l)).
+    + apply nth_error_app1; auto.
+    + rewrite (proj2 (nth_error_None l m)) by lia.
+      apply nth_error_None. rewrite app_length; simpl; lia.
+Qed.
+
+(* ------------------------------------------------------------------ *)
+(* invariant *)
+Definition nonempty (s : slot) : Prop := s_state s <> HDB_STATE_EMPTY.
+
+Definition slot_ok (n : Z) (s : slot) : Prop :=
+  s_state s = HDB_STATE_EMPTY \/
+  ((s_state s = HDB_STATE_ACTIVE \/ s_state s = HDB_STATE_PENDINGREMOVAL) /\ 1 <= s_ref s /\ 1 <= s_inst s < n).
+
+Record Inv (d : hdb) : Prop := {
+  inv_slots : forall i s, nth_error (slots d) i = Some s -> slot_ok (next_inst d) s;
+  inv_uniq  : forall i j si sj, nth_error (slots d) i = Some si -> nth_error (slots d) j = Some sj ->
+                                nonempty si -> nonempty sj -> s_inst si = s_inst sj -> i = j;
+  inv_live_not_dead : forall i s, nth_error (slots d) i = Some s -> nonempty s -> ~ In (s_inst s) (dlog d);
+  inv_dlog_nodup : NoDup (dlog d);
+  inv_dlog_range : forall x, In x (dlog d) -> 1 <= x < next_inst d;
+  inv_len : Z.of_nat (length (slots d)) <= HDB_ARRAY_MAX_ELEMENTS;
+  inv_next : 1 <= next_inst d
+}.
+
+Lemma zero_slot_empty : ~ nonempty zero_slot.
+Proof. unfold nonempty, zero_slot; simpl. rewrite st_empty_zero. tauto. Qed.
+
+Lemma slot_ok_nonempty n s : slot_ok n s -> nonempty s ->
+  (s_state s = HDB_STATE_ACTIVE \/ s_state s = HDB_STATE_PENDINGREMOVAL) /\ 1 <= s_ref s /\ 1 <= s_inst s < n.
+Proof. intros [He|H] Hn; auto. exfalso; apply Hn; auto. Qed.
+
+Lemma slot_ok_mono n m s : n <= m -> slot_ok n s -> slot_ok m s.
+Proof. intros Hle [He|(Hs & Hr & Hi)]; [left; auto| right; repeat split; auto; lia]. Qed.
+
+Lemma inv_init : Inv hdb_init.
+Proof.
+  constructor; simpl; intros.
+  - destruct i; discriminate.
+  - destruct i; discriminate.
+  - destruct i; discriminate.
+  - constructor.
+  - contradiction.
+  - unfold HDB_ARRAY_MAX_ELEMENTS; lia.
+  - lia.
+Qed.
+
+(* ------------------------------------------------------------------ *)
+(* find_empty *)
+Lemma find_empty_spec l k i :
+  find_empty l k = Some i ->
+  k <= i /\ exists s, nth_error l (Z.to_nat (i - k)) = Some s /\ s_state s = HDB_STATE_EMPTY.
+Proof.
+  revert k; induction l as [|a l IH]; intros k H; simpl in H; [discriminate|].
+  destruct (s_state a =? HDB_STATE_EMPTY) eqn:E.
+  - inversion H; subst. split; [lia|]. rewrite Z.sub_diag. simpl. exists a; split; auto. apply Z.eqb_eq; auto.
+  - apply IH in H. destruct H as [Hk (s & Hn & Hs)]. split; [lia|].
+    exists s; split; auto.
+    replace (Z.to_nat (i - k)) with (S (Z.to_nat (i - (k + 1)))) by lia. simpl; auto.
+Qed.
+
+Lemma find_empty_none l k : find_empty l k = None -> forall i s, nth_error l i = Some s -> nonempty s.
+Proof.
+  revert k; induction l as [|a l IH]; intros k H i s Hn; [destruct i; discriminate|].
+  simpl in H. destruct (s_state a =? HDB_STATE_EMPTY) eqn:E; [discriminate|].
+  destruct i; simpl in Hn.
+  - inversion Hn; subst. unfold nonempty. apply Z.eqb_neq; auto.
+  - eapply IH; eauto.
+Qed.
+
+(* ------------------------------------------------------------------ *)
+(* generic preservation lemma: replacing one slot by a slot carrying the same instance *)
+Lemma inv_set_same_inst d i s s' :
+  Inv d -> nth_error (slots d) i = Some s -> nonempty s -> nonempty s' ->
+  s_inst s' = s_inst s -> slot_ok (next_inst d) s' ->
+  Inv {| slots := upd (slots d) i s'; iter := iter d; next_inst := next_inst d; dlog := dlog d |}.
+Proof.
+  intros I Hi Hne Hne' Hinst Hok.
+  assert (Hlt : (i < length (slots d))%nat) by (apply nth_error_Some; congruence).
+  constructor; simpl.
+  - intros j t Hj. rewrite nth_upd in Hj.
+    destruct (Nat.eqb_spec i j); [destruct (Nat.ltb i (length (slots d))); inversion Hj; subst; auto|].
+    eapply inv_slots; eauto.
+  - intros a b sa sb Ha Hb Hna Hnb Heq. rewrite nth_upd in Ha, Hb.
+    apply Nat.ltb_lt in Hlt.
+    destruct (Nat.eqb_spec i a); destruct (Nat.eqb_spec i b); rewrite ?Hlt in *; subst; auto.
+    + inversion Ha; subst sa. rewrite Hinst in Heq.
+      eapply (inv_uniq d I); eauto.
+    + inversion Hb; subst sb. rewrite Hinst in Heq.
+      eapply (inv_uniq d I); eauto.
+    + eapply (inv_uniq d I); eauto.
+  - intros j t Hj Hnt. rewrite nth_upd in Hj. apply Nat.ltb_lt in Hlt.
+    destruct (Nat.eqb_spec i j); rewrite ?Hlt in *.
+    + inversion Hj; subst t. rewrite Hinst. eapply (inv_live_not_dead d I); eauto.
+    + eapply (inv_live_not_dead d I); eauto.
+  - apply (inv_dlog_nodup d I).
+  - apply (inv_dlog_range d I).
+  - rewrite upd_length. apply (inv_len d I).
+  - apply (inv_next d I).
+Qed.
+
+(* clearing a slot whose count reaches zero: destructor logged *)
+Lemma inv_clear d i s :
+  Inv d -> nth_error (slots d) i = Some s -> nonempty s ->
+  Inv {| slots := upd (slots d) i zero_slot; iter := iter d; next_inst := next_inst d;
+         dlog := s_inst s :: dlog d |}.
+Proof.
+  intros I Hi Hne.
+  assert (Hlt : (i < length (slots d))%nat) by (apply nth_error_Some; congruence).
+  assert (Hlt' := Hlt). apply Nat.ltb_lt in Hlt'.
+  constructor; simpl.
+  - intros j t Hj. rewrite nth_upd in Hj.
+    destruct (Nat.eqb_spec i j); rewrite ?Hlt' in *.
+    + inversion Hj; subst. left; reflexivity.
+    + eapply (inv_slots d I); eauto.
+  - intros a b sa sb Ha Hb Hna Hnb Heq. rewrite nth_upd in Ha, Hb.
+    destruct (Nat.eqb_spec i a); destruct (Nat.eqb_spec i b); rewrite ?Hlt' in *; subst; auto.
+    + inversion Ha; subst sa. exfalso; apply zero_slot_empty; auto.
+    + inversion Hb; subst sb. exfalso; apply zero_slot_empty; auto.
+    + eapply (inv_uniq d I); eauto.
+  - intros j t Hj Hnt. rewrite nth_upd in Hj.
+    destruct (Nat.eqb_spec i j); rewrite ?Hlt' in *.
+    + inversion Hj; subst t. exfalso; apply zero_slot_empty; auto.
+    + intros [Heq|Hin].
+      * apply n. eapply (inv_uniq d I); eauto.
+      * eapply (inv_live_not_dead d I); eauto.
+  - constructor; [|apply (inv_dlog_nodup d I)]. eapply (inv_live_not_dead d I); eauto.
+  - intros x [<-|Hin]; [|apply (inv_dlog_range d I); auto].
+    destruct (slot_ok_nonempty _ _ (inv_slots d I _ _ Hi) Hne) as (_ & _ & H); auto.
+  - rewrite upd_length. apply (inv_len d I).
+  - apply (inv_next d I).
+Qed.
+
+(* a freshly created object *)
+Definition fresh_slot (d : hdb) (chk : Z) : slot :=
+  {| s_state := HDB_STATE_ACTIVE; s_check := chk; s_ref := 1; s_inst := next_inst d |}.
+
+Lemma fresh_nonempty d chk : nonempty (fresh_slot d chk).
+Proof. unfold nonempty; simpl. apply st_active_ne_empty. Qed.
+
+Lemma inv_create_reuse d i s chk :
+  Inv d -> nth_error (slots d) i = Some s -> ~ nonempty s ->
+  Inv {| slots := upd (slots d) i (fresh_slot d chk); iter := iter d; next_inst := next_inst d + 1; dlog := dlog d |}.
+Proof.
+  intros I Hi Hne.
+  assert (Hlt : (i < length (slots d))%nat) by (apply nth_error_Some; congruence).
+  assert (Hlt' := Hlt). apply Nat.ltb_lt in Hlt'.
+  pose proof (inv_next d I) as Hnx.
+  assert (Hold : forall j t, nth_error (slots d) j = Some t -> nonempty t -> s_inst t < next_inst d).
+  { intros j t Hj Hnt. destruct (slot_ok_nonempty _ _ (inv_slots d I _ _ Hj) Hnt) as (_ & _ & H); lia. }
+  constructor; simpl.
+  - intros j t Hj. rewrite nth_upd in Hj.
+    destruct (Nat.eqb_spec i j); rewrite ?Hlt' in *.
+    + inversion Hj; subst. right; simpl. repeat split; auto; lia.
+    + eapply slot_ok_mono; [|eapply (inv_slots d I); eauto]. lia.
+  - intros a b sa sb Ha Hb Hna Hnb Heq. rewrite nth_upd in Ha, Hb.
+    destruct (Nat.eqb_spec i a); destruct (Nat.eqb_spec i b); rewrite ?Hlt' in *; subst; auto.
+    + inversion Ha; subst sa. simpl in Heq. specialize (Hold _ _ Hb Hnb). lia.
+    + inversion Hb; subst sb. simpl in Heq. specialize (Hold _ _ Ha Hna). lia.
+    + eapply (inv_uniq d I); eauto.
+  - intros j t Hj Hnt. rewrite nth_upd in Hj.
+    destruct (Nat.eqb_spec i j); rewrite ?Hlt' in *.
+    + inversion Hj; subst t. simpl. intro Hin. apply (inv_dlog_range d I) in Hin. lia.
+    + eapply (inv_live_not_dead d I); eauto.
+  - apply (inv_dlog_nodup d I).
+  - intros x Hin. apply (inv_dlog_range d I) in Hin. lia.
+  - rewrite upd_length. apply (inv_len d I).
+  - lia.
+Qed.
+
+Lemma inv_create_append d chk :
+  Inv d -> Z.of_nat (length (slots d)) + 1 <= HDB_ARRAY_MAX_ELEMENTS ->
+  Inv {| slots := slots d ++ [fresh_slot d chk]; iter := iter d; next_inst := next_inst d + 1; dlog := dlog d |}.
+Proof.
+  intros I Hmax.
+  pose proof (inv_next d I) as Hnx.
+  assert (Hold : forall j t, nth_error (slots d) j = Some t -> nonempty t -> s_inst t < next_inst d).
+  { intros j t Hj Hnt. destruct (slot_ok_nonempty _ _ (inv_slots d I _ _ Hj) Hnt) as (_ & _ & H); lia. }
+  constructor; simpl.
+  - intros j t Hj. rewrite nth_app_new in Hj.
+    destruct (Nat.eqb_spec j (length (slots d))).
+    + inversion Hj; subst. right; simpl. repeat split; auto; lia.
+    + eapply slot_ok_mono; [|eapply (inv_slots d I); eauto]. lia.
+  - intros a b sa sb Ha Hb Hna Hnb Heq. rewrite nth_app_new in Ha, Hb.
+    destruct (Nat.eqb_spec a (length (slots d))); destruct (Nat.eqb_spec b (length (slots d))); subst; auto.
+    + inversion Ha; subst sa. simpl in Heq. specialize (Hold _ _ Hb Hnb). lia.
+    + inversion Hb; subst sb. simpl in Heq. specialize (Hold _ _ Ha Hna). lia.
+    + eapply (inv_uniq d I); eauto.
+  - intros j t Hj Hnt. rewrite nth_app_new in Hj.
+    destruct (Nat.eqb_spec j (length (slots d))).
+    + inversion Hj; subst t. simpl. intro Hin. apply (inv_dlog_range d I) in Hin. lia.
+    + eapply (inv_live_not_dead d I); eauto.
+  - apply (inv_dlog_nodup d I).
+  - intros x Hin. apply (inv_dlog_range d I) in Hin. lia.
+  - rewrite app_length; simpl. lia.
+  - lia.
+Qed.
+
+(* ------------------------------------------------------------------ *)
+(* characterisation of lookup / get *)
+Lemma nth_slot_some d i s : nth_slot d i = Some s -> 0 <= i /\ nth_error (slots d) (Z.to_nat i) = Some s.
+Proof. unfold nth_slot. destruct (i <? 0) eqn:E; [discriminate|]. intro H. split; auto. lia. Qed.
+
+Lemma lookup_some d h i s :
+  lookup d h = Some (i, s) ->
+  i = idx_of h /\ 0 <= i /\ nth_error (slots d) (Z.to_nat i) = Some s /\ nonempty s /\
+  (check_of h = NOCHECK \/ check_of h = s_check s).
+Proof.
+  unfold lookup. destruct (handle_count d <=? idx_of h); [discriminate|].
+  destruct (nth_slot d (idx_of h)) as [t|] eqn:E; [|discriminate].
+  destruct (s_state t =? HDB_STATE_EMPTY) eqn:Es; [discriminate|].
+  destruct (check_ok (check_of h) t) eqn:Ec; [|discriminate].
+  intro H; inversion H; subst. apply nth_slot_some in E. destruct E as [E1 E2].
+  repeat split; auto.
+  - unfold nonempty. apply Z.eqb_neq; auto.
+  - unfold check_ok in Ec. apply orb_true_iff in Ec. destruct Ec as [Ec|Ec]; apply Z.eqb_eq in Ec; auto.
+Qed.
+
+Lemma set_slot_eq d i s :
+  set_slot d i s = {| slots := upd (slots d) (Z.to_nat i) s; iter := iter d; next_inst := next_inst d; dlog := dlog d |}.
+Proof. reflexivity. Qed.
+
+Lemma inv_drop_ref d i s :
+  Inv d -> nth_error (slots d) (Z.to_nat i) = Some s -> nonempty s -> Inv (drop_ref d i s).
+Proof.
+  intros I Hi Hne. unfold drop_ref.
+  destruct (s_ref s - 1 =? 0) eqn:E.
+  - apply inv_clear; auto.
+  - rewrite set_slot_eq. apply Z.eqb_neq in E.
+    destruct (slot_ok_nonempty _ _ (inv_slots d I _ _ Hi) Hne) as (Hs & Hr & Hx).
+    eapply inv_set_same_inst; eauto; simpl; auto.
+    right; simpl; repeat split; auto; lia.
+Qed.
+
+Lemma inv_put d h : Inv d -> Inv (fst (do_put d h)).
+Proof.
+  intros I. unfold do_put. destruct (lookup d h) as [[i s]|] eqn:E; simpl; auto.
+  apply lookup_some in E. destruct E as (_ & _ & Hn & Hne & _).
+  apply inv_drop_ref; auto.
+Qed.
+
+Lemma inv_destroy d h : Inv d -> Inv (fst (do_destroy d h)).
+Proof.
+  intros I. unfold do_destroy. destruct (lookup d h) as [[i s]|] eqn:E; simpl; auto.
+  apply lookup_some in E. destruct E as (_ & _ & Hn & Hne & _).
+  apply inv_put. rewrite set_slot_eq.
+  destruct (slot_ok_nonempty _ _ (inv_slots d I _ _ Hn) Hne) as (Hs & Hr & Hx).
+  eapply inv_set_same_inst; eauto; simpl; auto.
+  - unfold nonempty; simpl. apply st_pending_ne_empty.
+  - right; simpl; repeat split; auto; lia.
+Qed.
+
+Lemma do_get_cases d h :
+  (do_get d h = (d, - HDB_EBADF, 0)) \/
+  exists s, 0 <= idx_of h /\ nth_error (slots d) (Z.to_nat (idx_of h)) = Some s /\ s_state s = HDB_STATE_ACTIVE /\
+            (check_of h = NOCHECK \/ check_of h = s_check s) /\
+            do_get d h = (set_slot d (idx_of h) {| s_state := s_state s; s_check := s_check s; s_ref := s_ref s + 1; s_inst := s_inst s |},
+                          0, s_inst s).
+Proof.
+  unfold do_get. destruct (handle_count d <=? idx_of h); auto.
+  destruct (nth_slot d (idx_of h)) as [s|] eqn:E; auto.
+  destruct (s_state s =? HDB_STATE_ACTIVE) eqn:Es; simpl; auto.
+  destruct (check_ok (check_of h) s) eqn:Ec; simpl; auto.
+  right. exists s. apply nth_slot_some in E. destruct E. apply Z.eqb_eq in Es.
+  unfold check_ok in Ec. apply orb_true_iff in Ec.
+  repeat split; auto. destruct Ec as [Ec|Ec]; apply Z.eqb_eq in Ec; auto.
+Qed.
+
+Lemma inv_get d h : Inv d -> Inv (fst (fst (do_get d h))).
+Proof.
+  intros I. destruct (do_get_cases d h) as [->|(s & H0 & Hn & Hs & _ & ->)]; simpl; auto.
+  rewrite set_slot_eq.
+  assert (Hne : nonempty s) by (unfold nonempty; rewrite Hs; apply st_active_ne_empty).
+  destruct (slot_ok_nonempty _ _ (inv_slots d I _ _ Hn) Hne) as (Hs' & Hr & Hx).
+  eapply inv_set_same_inst; eauto; simpl; auto.
+  right; simpl; repeat split; auto; lia.
+Qed.
+
+(* replacing an EMPTY slot by an EMPTY slot / appending an EMPTY slot *)
+Lemma inv_set_empty d i s s' :
+  Inv d -> nth_error (slots d) i = Some s -> ~ nonempty s -> ~ nonempty s' ->
+  Inv {| slots := upd (slots d) i s'; iter := iter d; next_inst := next_inst d; dlog := dlog d |}.
+Proof.
+  intros I Hi Hne Hne'.
+  assert (Hlt : (i < length (slots d))%nat) by (apply nth_error_Some; congruence).
+  assert (Hlt' := Hlt). apply Nat.ltb_lt in Hlt'.
+  constructor; simpl.
+  - intros j t Hj. rewrite nth_upd in Hj.
+    destruct (Nat.eqb_spec i j); rewrite ?Hlt' in *.
+    + inversion Hj; subst. left. unfold nonempty in Hne'. destruct (Z.eq_dec (s_state t) HDB_STATE_EMPTY); tauto.
+    + eapply (inv_slots d I); eauto.
+  - intros a b sa sb Ha Hb Hna Hnb Heq. rewrite nth_upd in Ha, Hb.
+    destruct (Nat.eqb_spec i a); destruct (Nat.eqb_spec i b); rewrite ?Hlt' in *; subst; auto.
+    + inversion Ha; subst sa. contradiction.
+    + inversion Hb; subst sb. contradiction.
+    + eapply (inv_uniq d I); eauto.
+  - intros j t Hj Hnt. rewrite nth_upd in Hj.
+    destruct (Nat.eqb_spec i j); rewrite ?Hlt' in *.
+    + inversion Hj; subst t. contradiction.
+    + eapply (inv_live_not_dead d I); eauto.
+  - apply (inv_dlog_nodup d I).
+  - apply (inv_dlog_range d I).
+  - rewrite upd_length. apply (inv_len d I).
+  - apply (inv_next d I).
+Qed.
+
+Lemma inv_append_empty d :
+  Inv d -> Z.of_nat (length (slots d)) + 1 <= HDB_ARRAY_MAX_ELEMENTS ->
+  Inv {| slots := slots d ++ [zero_slot]; iter := iter d; next_inst := next_inst d; dlog := dlog d |}.
+Proof.
+  intros I Hmax.
+  constructor; simpl.
+  - intros j t Hj. rewrite nth_app_new in Hj. destruct (Nat.eqb_spec j (length (slots d))).
+    + inversion Hj; subst. left; reflexivity.
+    + eapply (inv_slots d I); eauto.
+  - intros a b sa sb Ha Hb Hna Hnb Heq. rewrite nth_app_new in Ha, Hb.
+    destruct (Nat.eqb_spec a (length (slots d))); destruct (Nat.eqb_spec b (length (slots d))); subst; auto.
+    + inversion Ha; subst sa. exfalso; apply zero_slot_empty; auto.
+    + inversion Hb; subst sb. exfalso; apply zero_slot_empty; auto.
+    + eapply (inv_uniq d I); eauto.
+  - intros j t Hj Hnt. rewrite nth_app_new in Hj. destruct (Nat.eqb_spec j (length (slots d))).
+    + inversion Hj; subst t. exfalso; apply zero_slot_empty; auto.
+    + eapply (inv_live_not_dead d I); eauto.
+  - apply (inv_dlog_nodup d I).
+  - apply (inv_dlog_range d I).
+  - rewrite app_length; simpl. lia.
+  - apply (inv_next d I).
+Qed.
+
+Lemma inv_create_fail d : Inv d -> Inv (fst (do_create_fail d)).
+Proof.
+  intros I. unfold do_create_fail.
+  destruct (find_empty (slots d) 0) as [i|] eqn:E.
+  - apply find_empty_spec in E. destruct E as (H0 & s & Hn & Hs). rewrite Z.sub_0_r in Hn.
+    rewrite Hn. simpl. apply (inv_set_empty d _ s); auto; unfold nonempty; simpl; tauto.
+  - destruct (HDB_ARRAY_MAX_ELEMENTS <? handle_count d + 1) eqn:Em; simpl; auto.
+    apply Z.ltb_ge in Em. apply inv_append_empty; auto.
+Qed.
+
+Lemma inv_create d chk : Inv d -> Inv (fst (do_create d chk)).
+Proof.
+  intros I. unfold do_create.
+  destruct (find_empty (slots d) 0) as [i|] eqn:E.
+  - apply find_empty_spec in E. destruct E as (H0 & s & Hn & Hs). rewrite Z.sub_0_r in Hn.
+    simpl. apply (inv_create_reuse d _ s chk I Hn). unfold nonempty; tauto.
+  - destruct (HDB_ARRAY_MAX_ELEMENTS <? handle_count d + 1) eqn:Em; simpl; auto.
+    apply Z.ltb_ge in Em. apply inv_create_append; auto.
+Qed.
+
+Lemma inv_set_iter d k : Inv d -> Inv {| slots := slots d; iter := k; next_inst := next_inst d; dlog := dlog d |}.
+Proof. intros [A B C D E F G]; constructor; simpl; auto. Qed.
+
+Lemma inv_iter_loop fuel : forall d r, Inv d -> Inv (fst (iter_loop fuel d r)).
+Proof.
+  induction fuel as [|f IH]; intros d r I; simpl; auto.
+  destruct (iter d <? handle_count d); simpl; auto.
+  destruct (nth_slot d (iter d)) as [s|]; simpl; auto.
+  pose proof (inv_get d (mk_handle (s_check s) (iter d)) I) as Ig.
+  destruct (do_get d (mk_handle (s_check s) (iter d))) as [[d1 r1] inst]. simpl in Ig.
+  destruct (r1 =? 0); simpl.
+  - apply inv_set_iter; auto.
+  - apply IH. apply inv_set_iter; auto.
+Qed.
+
+Theorem inv_step d o : Inv d -> Inv (fst (step d o)).
+Proof.
+  intros I. destruct o; unfold step.
+  - apply inv_create; auto.
+  - apply inv_create_fail; auto.
+  - pose proof (inv_get d h I). destruct (do_get d h) as [[d' r] inst]; auto.
+  - pose proof (inv_put d h I). destruct (do_put d h); auto.
+  - pose proof (inv_destroy d h I). destruct (do_destroy d h); auto.
+  - auto.
+  - apply inv_set_iter; auto.
+  - apply inv_iter_loop; auto.
+Qed.
+
+Theorem inv_run : forall ops d, Inv d -> Inv (fst (run d ops)).
+Proof.
+  induction ops as [|o ops IH]; intros d I; simpl; auto.
+  pose proof (inv_step d o I) as Is. destruct (step d o) as [d1 x]. simpl in Is.
+  specialize (IH d1 Is). destruct (run d1 ops) as [d2 xs]. simpl in *. auto.
+Qed.
+
 Lemma inv_run_init : forall ops, Inv (fst (run hdb_init ops)).
-Proof. intros; exact I. Qed.
+Proof. intros; apply inv_run, inv_init. Qed.
+
+Lemma dlog_nodup_all_histories : forall ops, NoDup (dlog (fst (run hdb_init ops))).
+Proof. intros. apply inv_dlog_nodup, inv_run_init. Qed.
